@@ -6,6 +6,7 @@ import (
 	"fmt"
 	"go/constant"
 	"go/token"
+	"go/types"
 	"sort"
 	"strings"
 
@@ -238,6 +239,9 @@ func c12Probes(w *World, r *Report) {
 	name := fnName(gf)
 	fsI := w.Iface("filesystem", "FileSystem")
 	probed := map[string]bool{}
+	if c12ProbeClosures(w, r, gf, fsI) {
+		return
+	}
 	for _, n := range w.Implementers(fsI) {
 		pkg := strings.TrimPrefix(n.Obj().Pkg().Path(), modPath+"/")
 		rd := w.FuncOpt(pkg, "Read")
@@ -1080,4 +1084,110 @@ func c12StaleGPT(w *World, r *Report) {
 		r.Fail("C12-h", name, "a replaced GPT's headers are invalidated before success", w.relFile(instrPos(ret)),
 			"Disk.Partition can succeed without testing LBA 1 and the last sector for the signature of an earlier GPT and erasing it: the MBR writer touches only bytes 446..511, the GPT header survives, and because a disk is probed for GPT first it reads back as the old GPT with the old partitions")
 	}
+}
+
+// c12ProbeClosures: GetFilesystem written as an ordered list of probe closures and one loop that calls them. Each
+// closure only forwards to one package's Read; the loop's call site returns the closure's filesystem exactly (and at
+// once) on its nil-error edge and goes on with the next probe otherwise. Returns false if GetFilesystem has no such shape.
+func c12ProbeClosures(w *World, r *Report, gf *ssa.Function, fsI *types.Interface) bool {
+	name := fnName(gf)
+	// is any Read called directly? then the direct form is judged by the caller
+	for _, c := range calls(gf, false, func(c ssa.CallInstruction) bool {
+		g := c.Common().StaticCallee()
+		return g != nil && g.Name() == "Read" && g.Signature.Recv() == nil
+	}) {
+		_ = c
+		return false
+	}
+	byPkg := map[string]*ssa.Function{}
+	for _, cl := range gf.AnonFuncs {
+		for _, c := range calls(cl, false, func(c ssa.CallInstruction) bool {
+			g := c.Common().StaticCallee()
+			return g != nil && g.Name() == "Read" && g.Signature.Recv() == nil
+		}) {
+			// the closure returns the Read's results as they are
+			pure := false
+			for _, ret := range returnsOf(cl) {
+				if len(ret.Results) == 2 {
+					r0 := ret.Results[0]
+					if mi, ok := r0.(*ssa.MakeInterface); ok {
+						r0 = mi.X
+					}
+					if ci, ok := r0.(*ssa.ChangeInterface); ok {
+						r0 = ci.X
+					}
+					if e0, ok := r0.(*ssa.Extract); ok && e0.Tuple == ssa.Value(c.(*ssa.Call)) && e0.Index == 0 {
+						if e1, ok := ret.Results[1].(*ssa.Extract); ok && e1.Tuple == ssa.Value(c.(*ssa.Call)) && e1.Index == 1 {
+							pure = true
+						}
+					}
+				}
+			}
+			if pure {
+				byPkg[w.pkgOf(c.Common().StaticCallee())] = cl
+			}
+		}
+	}
+	if len(byPkg) == 0 {
+		return false
+	}
+	// the dispatching call: a dynamic call whose possible targets are these closures
+	var site *ssa.Call
+	for _, cc := range calls(gf, false, func(c ssa.CallInstruction) bool { return !c.Common().IsInvoke() && c.Common().StaticCallee() == nil }) {
+		c, ok := cc.(*ssa.Call)
+		if !ok {
+			continue
+		}
+		n := 0
+		for _, t := range w.calleesCHA(cc) {
+			for _, cl := range byPkg {
+				if t == cl {
+					n++
+				}
+			}
+		}
+		if n == len(byPkg) {
+			site = c
+		}
+	}
+	if site == nil {
+		r.Undecided("C12-b", name, "probe table", w.relFile(gf.Pos()), "GetFilesystem builds probe closures but no call site dispatches to all of them")
+		return true
+	}
+	iff, nilIdx := errNilEdge(gf, site)
+	imm := false
+	if iff != nil {
+		if rr, ok := lastInstr(iff.Block().Succs[nilIdx]).(*ssa.Return); ok && classifyReturn(rr) != RetError {
+			for _, rt := range w.prov(rr.Results[0], provOpts{}).Roots {
+				if rt.Kind == RCall && rt.Call == ssa.CallInstruction(site) {
+					imm = true
+				}
+			}
+		}
+	}
+	// the failing edge stays in the loop (reaches the call site again) or falls to an error return
+	loops := iff != nil && blockReaches(iff.Block().Succs[1-nilIdx], site.Block())
+	for _, n := range w.Implementers(fsI) {
+		pkg := strings.TrimPrefix(n.Obj().Pkg().Path(), modPath+"/")
+		if w.FuncOpt(pkg, "Read") == nil {
+			continue
+		}
+		cl := byPkg[pkg]
+		if cl == nil {
+			r.Fail("C12-b", name, "probes "+pkg, w.relFile(gf.Pos()), "GetFilesystem never probes "+pkg+".Read: such a filesystem is reported as unknown")
+			continue
+		}
+		r.Check(iff != nil && imm, "C12-b", name, "probe "+pkg+" returned iff it succeeded", w.relFile(site.Pos()), "through the table of probes",
+			"the result of the probe closures is not returned exactly on the nil-error edge of the dispatching call")
+		r.Check(imm, "C12-b", name, "probe "+pkg+" success returns at once", w.relFile(site.Pos()), "through the table of probes", "a successful probe does not return its filesystem immediately")
+		r.Check(loops, "C12-b", name, "a failed "+pkg+" probe leads to the next one", w.relFile(site.Pos()), "", "after a failed probe the loop does not go on to the next probe")
+	}
+	nErr := 0
+	for _, ret := range returnsOf(gf) {
+		if classifyReturn(ret) == RetError {
+			nErr++
+		}
+	}
+	r.Check(nErr > 0, "C12-b", name, "fall-through is an error", w.relFile(gf.Pos()), "", "GetFilesystem has no error return for an unrecognised range")
+	return true
 }
